@@ -485,7 +485,7 @@ def cmd_check(args):
     known = load_known()
     results, walls, exit_code = {}, {}, 0
     lines = []
-    violations, known_hits, inconclusive = [], [], []
+    violations, known_hits, inconclusive, unreplayed = [], [], [], []
     groups = sorted({h.group for h in sel})
     for gname in groups:
         hs = [h for h in sel if h.group == gname]
@@ -503,6 +503,11 @@ def cmd_check(args):
             for h in hs:
                 r = res[h.fn]
                 results[h.fn] = r
+                if r["status"] == "failed" and violations and not os.environ.get("VERIF_REPLAY_ALL"):
+                    # one natively reproduced violation already decides the exit status; further failing harnesses are
+                    # listed with their failed checks but not replayed (each replay is a second CBMC run plus two test builds)
+                    r["status"] = "failed-unreplayed"
+                    unreplayed.append((h, r["real_failed"]))
                 if r["status"] == "failed":
                     pb = concrete_playback(ov, h, mem_kb)
                     r["playback"] = {k: v for k, v in pb.items() if k != "test"}
@@ -555,6 +560,8 @@ def cmd_check(args):
         for f in fl[:5]:
             log(f"  failing check in {h.fn}: \"{f['desc']}\" at {f['loc']}")
         log(f"VIOLATION property={prop} replay={rpath}")
+    for h, fl in unreplayed:
+        log(f"  also failing (not replayed, a violation is already reported): {h.fn}: \"{fl[0]['desc']}\" at {fl[0]['loc']}")
     for h, why in inconclusive:
         log(f"INCONCLUSIVE property={prop} harness={h.fn}: {why[:500]}")
     write_evidence(prop, tier, seed, sel, results, wall, len(violations), known_hits)
